@@ -9,7 +9,8 @@
    retarget interval > 0, window capacity >= 1), no_collision (hash tokens
    identify headers; nothing hashes to the genesis block's previous-block
    field), wf_hist (every headers message shorter than the in-memory window,
-   no externally invoked rollBackToHeight, fewer than 1000000 headers).
+   no externally invoked rollBackToHeight, no failing store write (OHeadersF:
+   C01's and C19's subject), fewer than 1000000 headers).
    Histories may contain restarts (ORestart: a new block manager built over
    the same stores; window = stored tip only, no peers) anywhere.
 
@@ -151,6 +152,33 @@ Theorem C02_heavier_branch_adopted_to_checkpoint : forall P gfh ops p now msg f,
   syncPeer s' = Some p.
 Proof. exact heavier_branch_adopted_to_checkpoint. Qed.
 Print Assumptions C02_heavier_branch_adopted_to_checkpoint.
+
+(* the trace monitor's test for the two theorems above (C02/Replay.v applies
+   [must_adopt_reorg] to the IMPLEMENTATION's chain before a message, with
+   [listened_to] computed from the observed sync peer and peer heights) is
+   sound: whenever it demands a chain e, the hypotheses of one of the two
+   theorems hold for some fork height f ([reorg_hyps]: forks_at, every header
+   valid on its prefix, fork not below the newest reached checkpoint,
+   strictly more work, sender listened to, and either the branch ends below
+   the next checkpoint and e = pre ++ msg, or the branch matches the
+   checkpoints and e = pre ++ upto_checkpoint P f msg), and e IS the chain
+   after the message *)
+Theorem C02_monitor_reorg_sound : forall P gfh ops p now msg e,
+  let o := OHeaders p now msg in
+  wf_params P -> no_collision P (ops ++ [o]) -> wf_hist P (ops ++ [o]) ->
+  let s := run P (init_state P gfh) ops in
+  must_adopt_reorg P now (chain s) msg (listened_to P now s p) = Some e ->
+  (exists f, reorg_hyps P now (chain s) msg (listened_to P now s p) f e) /\
+  chain (step P s o) = e.
+Proof. exact monitor_reorg_sound. Qed.
+Print Assumptions C02_monitor_reorg_sound.
+
+(* ... and the peer condition it evaluates depends only on what the trace
+   observes: the stored chain, the sync peer, the peers' heights *)
+Theorem C02_monitor_listened_observable : forall P now s p,
+  listened_to P now (obs_state (chain s) (syncPeer s) (peers s)) p = listened_to P now s p.
+Proof. exact listened_to_obs. Qed.
+Print Assumptions C02_monitor_listened_observable.
 
 (* total work never decreases, except when headers are cut back because their
    branch failed a checkpoint (or by a truncated reorganisation) *)
